@@ -331,15 +331,15 @@ def run(p: Program, rep: Report, tier: str) -> None:
             return e
 
         D = "isinstance(event, Data)"
-        need("call", "data.extend(event.data)", [D, "file is None"], ["not event.more_data"], "field data of every Data event is accumulated")
-        need("call", "file.write(event.data)", [D, "not (file is None)"], ["not event.more_data"], "file data of every Data event is written as it arrives")
-        e1 = need("call", "items.append((field_name, safe_decode(data, charset)))", [D, "not event.more_data", "file is None"], [], "a field is flushed exactly on its last Data event")
-        e2 = need("call", "data.clear()", [D, "not event.more_data", "file is None"], [], "the field accumulator is reset after the flush")
+        need("call", "data.extend(event.data)", [D, "file is None"], ["not (event.more_data)"], "field data of every Data event is accumulated")
+        need("call", "file.write(event.data)", [D, "not (file is None)"], ["not (event.more_data)"], "file data of every Data event is written as it arrives")
+        e1 = need("call", "items.append((field_name, safe_decode(data, charset)))", [D, "not (event.more_data)", "file is None"], [], "a field is flushed exactly on its last Data event")
+        e2 = need("call", "data.clear()", [D, "not (event.more_data)", "file is None"], [], "the field accumulator is reset after the flush")
         if e1 and e2 and not (e1.block == e2.block and e1.index < e2.index):
             rep.violation("R1.4", construct(fn, text="clear before append"), where(fn, e2.node), f"{name}: the accumulator is cleared before the field is appended")
-        s1 = need("call", "file.seek(0)", [D, "not event.more_data", "not (file is None)"], [], "an upload is rewound when its last Data event arrives")
-        s2 = need("call", "items.append((field_name, file))", [D, "not event.more_data", "not (file is None)"], [], "an upload is appended exactly on its last Data event")
-        s3 = need("assign", "file = None", [D, "not event.more_data", "not (file is None)"], [], "the file slot is released after the upload")
+        s1 = need("call", "file.seek(0)", [D, "not (event.more_data)", "not (file is None)"], [], "an upload is rewound when its last Data event arrives")
+        s2 = need("call", "items.append((field_name, file))", [D, "not (event.more_data)", "not (file is None)"], [], "an upload is appended exactly on its last Data event")
+        s3 = need("assign", "file = None", [D, "not (event.more_data)", "not (file is None)"], [], "the file slot is released after the upload")
         if s1 and s2 and s3 and not (s1.block == s2.block == s3.block and s1.index < s2.index < s3.index):
             rep.violation("R1.4", construct(fn, text="seek/append/reset order"), where(fn, s2.node), f"{name}: upload is not rewound before it is appended, or the slot is reset too early")
         need("assign", "file = file_factory(event.filename, event.headers)", ["isinstance(event, File)"], [], "a File event opens the upload with its filename and headers")
